@@ -1079,6 +1079,80 @@ fn jump_into_block_inputs(out: &mut Vec<Input>) {
     }
 }
 
+// ---- recursive calls of a STATIC procedure with actuals of different shapes ------------------------------------
+
+/// Family `static-recursion`: a STATIC SUB / FUNCTION with one INTEGER parameter that calls itself 1 to 3 levels deep
+/// (the shared counter GD% is set by the main module), the main module's actual and the actual of every recursive call
+/// being, independently, a plain variable, an array element, a record field, a field of an element of an array of
+/// records, or an expression (by value): 2 kinds x 5 outer shapes x 5 inner shapes x 3 depths (at depth > 1 the deeper
+/// levels go on through the shapes in a cycle), and the same for a two-parameter SUB whose second actual has the
+/// shape the first one does not.  The activations of a STATIC procedure that run at the same time share one memory block,
+/// parameters included; the call epilogue of every activation expects what ITS actual needs (an element's resolved
+/// path travels with the argument: `DequeueFromReturnStackWithPath`), whatever the inner activations were called with.
+/// The oracle is that of every C08 input (C03's family `static-byref-shapes` decides the values written back).
+fn static_recursion_inputs(out: &mut Vec<Input>) {
+    const SHAPES: [&str; 5] = ["var", "elem", "field", "elem-field", "by-value"];
+    // actuals the main module writes (its own variables) and actuals the procedure writes (DIM SHARED / its own)
+    const OUTER: [&str; 5] = ["V%", "A%(1)", "R.P", "RA(1).P", "V% + 1"];
+    const INNER: [&str; 5] = ["M%", "G%(2)", "GR.P", "GA(2).P", "P% - 1"];
+    const OUTER2: [&str; 5] = ["W%", "A%(2)", "R.P", "RA(2).P", "(W%)"];
+    const INNER2: [&str; 5] = ["GS%", "G%(1)", "GR.P", "GA(1).P", "7"];
+    let head = "TYPE Rec\n  P AS INTEGER\n  Q AS LONG\nEND TYPE\n";
+    let dims = "DIM SHARED GD%\nDIM SHARED GS%\nDIM SHARED G%(4)\nDIM SHARED GR AS Rec\nDIM SHARED GA(3) AS Rec\n\
+                DIM A%(4)\nDIM R AS Rec\nDIM RA(3) AS Rec\n\
+                V% = 3\nW% = 4\nA%(1) = 10\nA%(2) = 20\nR.P = 5\nRA(1).P = 30\nRA(2).P = 60\nG%(1) = 11\nG%(2) = 22\nGR.P = 6\nGA(1).P = 40\nGA(2).P = 80\nGS% = 9\n";
+    let tail = "PRINT V%; W%; GS%; GD%\nPRINT A%(1); A%(2); G%(1); G%(2)\nPRINT R.P; GR.P; RA(1).P; RA(2).P; GA(1).P; GA(2).P\n";
+    for kind in ["sub", "function", "sub2"] {
+        for o in 0..5 {
+            for i in 0..5 {
+                for depth in 1..=3usize {
+                    let mut t = format!("' static-recursion {} outer {} inner {} depth {}\n{}", kind, SHAPES[o], SHAPES[i], depth, head);
+                    let two = kind == "sub2";
+                    let is_fn = kind == "function";
+                    let (name, params) = match kind {
+                        "sub" => ("SR", "P%"),
+                        "function" => ("SF%", "P%"),
+                        _ => ("SR2", "P%, Q%"),
+                    };
+                    t.push_str(&format!("DECLARE {} {} ({})\n", if is_fn { "FUNCTION" } else { "SUB" }, name, params));
+                    t.push_str(dims);
+                    t.push_str(&format!("GD% = {}\n", depth));
+                    let outer = if two { format!("{}, {}", OUTER[o], OUTER2[(o + 1) % 5]) } else { OUTER[o].to_owned() };
+                    if is_fn {
+                        t.push_str(&format!("PRINT {}({})\n", name, outer));
+                    } else {
+                        t.push_str(&format!("{} {}\n", name, outer));
+                    }
+                    t.push_str(tail);
+                    t.push_str(&format!("{} {} ({}) STATIC\n", if is_fn { "FUNCTION" } else { "SUB" }, name, params));
+                    t.push_str("N% = N% + 1\nP% = P% + 10 + N%\nM% = M% + 2\n");
+                    t.push_str("IF GD% > 0 THEN\nGD% = GD% - 1\nL% = GD%\n");
+                    // level k (GD% after the decrement, kept in L% before the call): the first recursive call is the one of
+                    // level depth-1 and has the inner shape i; the deeper levels go on in a cycle
+                    for k in 0..depth {
+                        let shape = (i + (depth - 1 - k)) % 5;
+                        let inner = if two { format!("{}, {}", INNER[shape], INNER2[(shape + 1) % 5]) } else { INNER[shape].to_owned() };
+                        if is_fn {
+                            t.push_str(&format!("IF L% = {} THEN X% = {}({})\n", k, name, inner));
+                        } else {
+                            t.push_str(&format!("IF L% = {} THEN {} {}\n", k, name, inner));
+                        }
+                        // (L% is shared with the inner activations, which leave it at 0 or below their own level: the
+                        // tests for the levels above k fail after the call has returned)
+                        t.push_str(&format!("IF L% = {} THEN L% = -1\n", k));
+                    }
+                    t.push_str("END IF\nP% = P% + 100\n");
+                    if is_fn {
+                        t.push_str(&format!("{} = N%\n", name));
+                    }
+                    t.push_str(if is_fn { "END FUNCTION\n" } else { "END SUB\n" });
+                    out.push(Input { family: format!("static-recursion:{}", kind), text: t, stdin: vec![] });
+                }
+            }
+        }
+    }
+}
+
 // ---- shrinking -------------------------------------------------------------------------------------------
 
 fn sig_of(o: &Outcome) -> Option<String> {
@@ -1228,6 +1302,7 @@ fn main() {
     odd_builtin_inputs(&accepted, thorough, &mut inputs);
     odd_statement_inputs(&mut inputs);
     jump_into_block_inputs(&mut inputs);
+    static_recursion_inputs(&mut inputs);
     // the probes that did not end in a verdict are re-run as ordinary inputs
     for ((_, _, inp), r) in probes.iter().zip(probe_res.iter()) {
         if !matches!(r, Res::Done(Outcome::Rejected(_)) | Res::Done(Outcome::Ok) | Res::Done(Outcome::Budget) | Res::Done(Outcome::Err { .. })) {
@@ -1278,10 +1353,10 @@ fn main() {
                         });
                     }
                 }
-                if fam == "arg-fault" {
+                if fam == "arg-fault" || fam == "static-recursion" {
                     rep.fail(Failure {
                         kind: Kind::ModelVsImpl,
-                        signature: "family-program-rejected:arg-fault".into(),
+                        signature: format!("family-program-rejected:{}", fam),
                         input: inp.text.clone(),
                         implementation: format!("rejected by the front end: {}", m),
                         expected: "every program of the directed family is an accepted program".into(),
